@@ -236,10 +236,14 @@ class Explorer:
                 except PathAbort:
                     self.n_aborted += 1
                     continue
+                self.n_paths += 1
+                try:
+                    on_path(res)
+                except PathAbort:
+                    self.n_aborted += 1
+                    continue
                 if self.pos < len(self.prefix):
                     raise EngineError("trace desynchronised (prefix not consumed)")
-                self.n_paths += 1
-                on_path(res)
             finally:
                 _cur = None
                 self.solver.pop()
